@@ -86,9 +86,10 @@ func (store *Store) pathForKey(key string) string {
 
 // Has implements go-ipld-prime/storage.Storage.Has.
 func (store *Store) Has(ctx context.Context, key string) (bool, error) {
-	_, err := os.Stat(store.pathForKey(key))
+	fi, err := os.Stat(store.pathForKey(key))
 	if err == nil {
-		return true, nil
+		// A directory is never a stored block: the path of the empty key is a shard directory.
+		return !fi.IsDir(), nil
 	}
 	if os.IsNotExist(err) {
 		return false, nil
@@ -143,6 +144,10 @@ func (store *Store) GetStream(ctx context.Context, key string) (io.ReadCloser, e
 
 	// Figure out where we expect it to be.
 	destpath := store.pathForKey(key)
+	if key == "" {
+		// The empty key is never stored (Put refuses it); its path is a shard directory, which would open without error.
+		return nil, &os.PathError{Op: "open", Path: destpath, Err: os.ErrNotExist}
+	}
 
 	// Open and return.
 	// TODO: we should normalize things like "not exists" errors before hurling them up the stack.
